@@ -132,6 +132,75 @@ def c15(tier):
     return finish(prop, tier, t0, viols, cov)
 
 
+# ------------------------------------------------------------------ C08
+
+def viol_lines(out):
+    """<<"VIOL", i, "verdict", "json">> lines of a check-mode run."""
+    res = []
+    for line in out.splitlines():
+        if line.startswith('<<"VIOL"'):
+            body = line[line.index(",") + 1:line.rindex(">>")].strip()
+            idx, rest = body.split(",", 1)
+            rest = rest.strip()
+            verdict = None
+            if rest.startswith('"') and not rest.startswith('"{'):
+                verdict, rest = rest[1:].split('",', 1)
+            res.append((int(idx), verdict, json.loads(json.loads(rest.strip()))))
+    return res
+
+
+def c08(tier):
+    t0 = time.time()
+    prop = "C08"
+    wd = workdir(prop)
+    build_harness("default")
+    cfg = os.path.join(wd, "UskMac.cfg")
+    write_cfg(cfg, {"WSK": 2, "WDK": 3})
+    g = run_module("UskMac.tla", cfg, wd, "gen")
+    if "GEN-DONE" not in g["out"]:
+        raise ToolError("UskMac gen failed (an assumption of the model is false):\n" + g["out"][-3000:])
+    kinds = tagged(g["out"], "CASE")
+    parses = tagged(g["out"], "PARSES")
+    cases_path = os.path.join(wd, "cases.ndjson")
+    with open(cases_path, "w") as f:
+        for c in kinds:
+            f.write(json.dumps(c) + "\n")
+    obs = os.path.join(wd, "observed.ndjson")
+    rounds = 3 if tier == "quick" else 40
+    run_harness(["uskmac", "--cases", cases_path, "--out", obs, "--seed", str(seed()), "--rounds", str(rounds)], timeout=3000)
+    c = run_module("UskMac.tla", cfg, wd, "check", trace=obs, timeout=3000)
+    if "CHECK-DONE" not in c["out"]:
+        raise ToolError("UskMac check did not finish:\n" + c["out"][-3000:])
+    viols = []
+    for idx, verdict, rec in viol_lines(c["out"]):
+        what = {"unframed": "a re-framed user key (same MAC input, different arrangement) is accepted for refresh",
+                "accepted-foreign-arrangement": "a user key that was not issued is accepted for refresh",
+                "issued-refused": "an issued user key is refused",
+                "modified-on-reject": "a rejected refresh modified the user key or the master key"}.get(verdict, verdict)
+        viols.append({"what": what, "cause": verdict, "detail": rec})
+    drift = [l for l in c["out"].splitlines() if l.startswith('<<"DRIFT"')]
+    for l in drift[:3]:
+        print("MODEL-DRIFT UskMac: MAC preservation predicted by the model differs on real bytes: " + l[:300])
+    with open(obs) as f:
+        recs = [json.loads(l) for l in f]
+    parsed = [r for r in recs if r["parsed"]]
+    cov = {
+        "evaluations": len(recs),
+        "distinct_nontrivial": len({(r["kind"], r["pos"], r["key"], r["keep"]) for r in parsed if not r["same_key"]}),
+        "rule": "every tamper kind of UskMac.tla (15 structural + 6 envelope kinds) applied by its byte-level twin at up to 6 "
+                "positions of real issued keys (5 policies, 0-2 rekeys, classic and hybridised secrets), each offered to "
+                "refresh_usk with both flags; non-trivial = distinct parsed mutant that differs from the issued key",
+        "samples": [r for r in parsed if r["accepted"] and not r["same_key"]][:2] + [r for r in parsed if not r["accepted"]][:2],
+        "kinds": [k["kind"] for k in kinds],
+        "parses_of_mac_input_in_the_model": parses,
+        "unparseable_mutants": len(recs) - len(parsed),
+        "accepted_forgeries": len([r for r in parsed if r["accepted"] and not r["same_key"]]),
+        "model_drift": len(drift),
+        "states": max(1, c["distinct"]), "transitions": max(1, c["generated"]),
+    }
+    return finish(prop, tier, t0, viols, cov)
+
+
 def c12(tier):
     import sat_pke
     return sat_pke.check(tier)
@@ -142,7 +211,7 @@ def c14(tier):
     return sat_wire.check(tier)
 
 
-CHECKS = {"C15": c15, "C12": c12, "C14": c14}
+CHECKS = {"C15": c15, "C12": c12, "C14": c14, "C08": c08}
 
 
 def replay(prop, path):
